@@ -145,8 +145,19 @@ def stream_trace(tid, ops, lg, accel, outs=()):
         if c["ofm"] is not None:
             for s in merge(fm_segments(regs, "OFM", c["ofm"], g["oh"], g["ow"], g["od"])):
                 wr.append(("ofm",) + s)
+        # two different elements of the OFM must not share a byte (row / brick strides smaller than what a row / brick occupies):
+        # the tags below cannot see that, because the logical offsets come from the same strides as the addresses
+        iv = sorted((s[1], s[2], s[2] + s[3]) for s in wr if s[0] == "ofm")
+        wdup = sum(max(0, min(iv[k][2], iv[k + 1][2]) - iv[k + 1][1]) for k in range(len(iv) - 1) if iv[k][0] == iv[k + 1][0])
         wr.append(("shram", npuhw.SHRAM, 0, npuhw.shram_written_end(accel, g["lut"] is not None), CLOBBER, 0))
-        evs.append(("k", {"i": o["index"], "rd": rd, "wr": wr, "name": c["name"]}))
+        # ... and the same between operations, where it cannot be seen from overlapping writes (one row per stripe): the strides
+        # of every feature map must address different elements of the box at different bytes
+        ninj = [nm for nm, pfx, dims in (("ifm", "IFM", (g.get("ih"), g.get("iw"), g.get("id"))),
+                                          ("ofm", "OFM", (g["oh"], g["ow"], g["od"])))
+                if c.get(nm) is not None and None not in dims and not (nm == "ifm" and c.get("tile_padding"))     # (edge replication
+                # of the half-pixel resize aliases rows and columns of its IFM on purpose)
+                and not npuhw.layout_injective(regs, pfx, *dims)]
+        evs.append(("k", {"i": o["index"], "rd": rd, "wr": wr, "name": c["name"], "wdup": wdup, "ninj": ninj}))
     alias_events(len(cmds))
     # coordinate compression
     pts = collections.defaultdict(set)
@@ -184,7 +195,8 @@ def stream_trace(tid, ops, lg, accel, outs=()):
             lines.append({"t": tid, "e": "Kernel", "i": p["i"],
                           "rd": [{"w": s[0].rstrip("~"), "cells": cl(s[1], s[2], s[3]), "sid": s[4], "delta": s[5],
                                  "sidonly": s[0].endswith("~")} for s in p["rd"]],
-                          "wr": [{"cells": cl(s[1], s[2], s[3]), "sid": s[4], "delta": s[5]} for s in p["wr"]]})
+                          "wr": [{"cells": cl(s[1], s[2], s[3]), "sid": s[4], "delta": s[5]} for s in p["wr"]],
+                          "wdup": p.get("wdup", 0), "ninj": p.get("ninj", [])})
     if outs:
         lines.append({"t": tid, "e": "Out", "i": len(cmds), "outs": [{"w": "out:" + nm, "cells": cl(1, off, n)} for (nm, off, n) in outs]})
     lines.append({"t": tid, "e": "Stop"})
@@ -246,7 +258,7 @@ def jobs_for(tier, sd):
     jobs += corpus.shape_jobs(sd, tier, extra=["reshape_between"] * 2 + ["tr_hw"] * 2 + ["lut_gap"] * 3 + ["skip_out"] * 3, thorough=25)
     # opt-in graph shapes: memory-only operators directly on tensors entering the NPU subgraph (copies between the arena and
     # the fast storage, elided in one-memory modes); FULLY_CONNECTED with batches 1..17 laid out over H x W
-    jobs += corpus.shape_jobs(sd, tier, families=[], extra=["memonly_first"] * N_MEMONLY + ["fc_batch"] * N_FC_BATCH, thorough=12)
+    jobs += corpus.shape_jobs(sd, tier, families=[], extra=["memonly_first"] * N_MEMONLY + ["fc_batch"] * N_FC_BATCH + ["odd_cascade"] * 3, thorough=12)
     return jobs
 
 
@@ -372,7 +384,7 @@ def main(tier):
         return [{"t": t, "e": "Hdr", "ncells": 5, "init": [{"cells": [0, 1], "sid": 1, "delta": 0}]},
                 {"t": t, "e": "Alias", "i": 0, "src": [0, 1], "dst": dst, "insid": 1, "indelta": 0, "outsid": 2, "outdelta": 0},
                 {"t": t, "e": "Kernel", "i": 0, "rd": [{"w": "ifm", "cells": dst, "sid": 2, "delta": 0, "sidonly": False}],
-                 "wr": [{"cells": [4], "sid": 3, "delta": 0}]},
+                 "wr": [{"cells": [4], "sid": 3, "delta": 0}], "wdup": 0, "ninj": []},
                 {"t": t, "e": "Stop"}]
     _, viol = tlc.validate_traces("NpuTagTrace", "NpuTagTrace.cfg", elided(1, [0, 1]) + elided(2, [2, 3]))
     if any(v[0] == 1 for v in viol):
